@@ -46,6 +46,14 @@ def main():
 
 
 if __name__ == '__main__':
+    # A caller that started us through `nohup` (or any parent that ignores a signal) hands the ignored disposition
+    # down to every process we start; the real-process engines kill children with these signals and expect them to die.
+    for _s in (signal.SIGHUP, signal.SIGINT, signal.SIGTERM, signal.SIGUSR1, signal.SIGUSR2, signal.SIGQUIT):
+        try:
+            if signal.getsignal(_s) == signal.SIG_IGN:
+                signal.signal(_s, signal.SIG_DFL)
+        except (OSError, ValueError):
+            pass
     # Scratch space of this run: every process we start (scenario workers, the inner programs of the real-process
     # engines, their children) puts its temporary files (multiprocessing's pymp-* directories, listener sockets)
     # here; many of them leave through os._exit or are killed on purpose and would leave them behind in /tmp.
